@@ -192,5 +192,7 @@ def main(tier, seed):
         options(rep, table, 4 if tier == "quick" else 5, seed)
     fam = c03.export_families(rep, "FactorsDef4", 2, 2)
     c03.replay(rep, fam, seed, ["plain", "C", "TS"], shuffle=True, sample=120 if tier == "quick" else 2000)
+    # ... also on non-integer numeric data (a sum- or fully coded factor is an integer matrix: its products with x must not be)
+    c03.replay(rep, [c for c in fam if any("x" in t for t in c["terms"])], seed + 1, ["plainq", "TSq", "Cq"], shuffle=True, sample=120 if tier == "quick" else 2000)
     rep.exhaustive = True
     return rep.finish()
